@@ -670,13 +670,16 @@ func (f *fileConfig) Reload(opts ...ReloadedConfigDataOption) error {
 
 	// reread the configs
 	cfg, err := newFileConfig(f.opts, newData.configs, newData.rules)
-	if err != nil {
+	// As in NewConfig: a nil cfg is a fatal error and nothing is applied; a
+	// non-nil cfg with an error carries warnings only and is applied.
+	if cfg == nil {
 		return err
 	}
+	warnings := err
 
 	// if nothing's changed, we're fine
 	if f.mainHash == cfg.mainHash && f.rulesHash == cfg.rulesHash {
-		return nil
+		return warnings
 	}
 
 	// otherwise, update our state and call the callbacks
@@ -691,7 +694,7 @@ func (f *fileConfig) Reload(opts ...ReloadedConfigDataOption) error {
 	for _, cb := range f.callbacks {
 		cb(cfg.mainHash, cfg.rulesHash)
 	}
-	return nil
+	return warnings
 }
 
 // GetHashes returns the current hash values for the main and rules configs.
